@@ -1301,3 +1301,5 @@ func (g *G) RootType() *ty {
 	}
 	return tyNull
 }
+
+func (g *G) ExprOf(w *ty, d int) *Node { return g.Expr(w, d) }
